@@ -94,6 +94,15 @@ func main() {
 	res.Note("legacy historical reader held across a prune: %s", rnote)
 	res.SetExtra("held_reader_variant", rnote)
 
+	sc, snote, err := probeSampleChecked()
+	if err != nil {
+		res.Fatalf("min-age sample probe: %v", err)
+		lib.Finish(f, res)
+	}
+	sampleChecked.Store(sc)
+	res.Note("cached min-age sample after a reorg below it: %s", snote)
+	res.SetExtra("min_age_sample_variant", snote)
+
 	var jobs []job
 	if f.Replay != "" {
 		// seed-dependent scenarios are named after the seed of the run that found them
@@ -114,6 +123,17 @@ func main() {
 		jobs = replayJobs(f, res)
 	} else {
 		jobs = allJobs(f)
+		// development aid: run only the scenarios whose name contains the substring (never set by ./check)
+		if only := os.Getenv("C16_ONLY"); only != "" {
+			var sel []job
+			for _, j := range jobs {
+				if strings.Contains(j.name, only) {
+					sel = append(sel, j)
+				}
+			}
+			jobs = sel
+			res.Note("C16_ONLY=%s: %d scenarios selected", only, len(sel))
+		}
 	}
 
 	workers := runtime.GOMAXPROCS(0)
